@@ -35,12 +35,50 @@ if REPO not in sys.path:
 SUB = 200
 
 
+def run_resub(op, tl, par):
+    """ONE observable (one application of the operator) over a cold source, subscribed at 200 and again at 600: the second
+    subscription must see exactly what the first one saw, 400 later (state is allocated per subscription: C04 / frame condition)"""
+    from reactivex.testing import TestScheduler
+    s = TestScheduler()
+    o = build(s, op, tl, dict(par, cold=True))[0]
+    runs = []
+    for t0 in (200, 600):
+        out = []
+        runs.append(out)
+
+        def sub(_s, _st, out=out):
+            o.subscribe(lambda v: out.append((int(s.clock), "N", v)), lambda e: out.append((int(s.clock), "E", None)),
+                        lambda: out.append((int(s.clock), "C", None)), scheduler=s)
+        s.schedule_absolute(t0, sub)
+    s.schedule_absolute(990, lambda *_: s.stop())
+    s.start()
+    first = [e for e in runs[0] if e[0] < 600]
+    second = [(t - 400, k, v) for (t, k, v) in runs[1] if t - 400 < 600]
+    return first, second
+
+
 def run_real(op, tl, par):
     """tl: list of (time, kind, value) with kind N/E/C -> list of (time, kind, value)"""
+    from reactivex.testing import TestScheduler
+    s = TestScheduler()
+    o, other = build(s, op, tl, par)
+    res = s.start(lambda: o, disposed=900)
+    out = []
+    for m in res.messages:
+        k = m.value.kind
+        out.append((int(m.time), k, m.value.value if k == "N" else None))
+    if op in ("timeout", "timeout_with_mapper"):
+        # "never after the source terminated": the fallback is subscribed at most once, and only by a switch
+        out.append((0, "fallback-subscriptions", len(other.subscriptions)))
+    return out
+
+
+def build(s, op, tl, par):
+    """-> (the operator applied to the source built from the timeline, the fallback observable if any)"""
     import reactivex as rx
     from reactivex import operators as ops
-    from reactivex.testing import ReactiveTest, TestScheduler
-    s = TestScheduler()
+    from reactivex.testing import ReactiveTest
+    other = None
     msgs = []
     for (t, k, v) in tl:
         if k == "N":
@@ -96,15 +134,7 @@ def run_real(op, tl, par):
             o = src.pipe(ops.delay_with_mapper(lambda v: rx.timer(dv(d, v), scheduler=s)))
     else:
         raise SystemExit(f"unknown operator {op}")
-    res = s.start(lambda: o, disposed=900)
-    out = []
-    for m in res.messages:
-        k = m.value.kind
-        out.append((int(m.time), k, m.value.value if k == "N" else None))
-    if op in ("timeout", "timeout_with_mapper"):
-        # "never after the source terminated": the fallback is subscribed at most once, and only by a switch
-        out.append((0, "fallback-subscriptions", len(other.subscriptions)))
-    return out
+    return o, other
 
 
 def dv(d, v):
@@ -300,10 +330,21 @@ sys.exit(r.returncode)
 '''
 
 
+def check_resub(op, tl, par):
+    try:
+        first, second = run_resub(op, tl, par)
+    except Exception as e:  # noqa: BLE001
+        return {"what": f"escaped: {type(e).__name__}: {e}"}
+    if first != second:
+        return {"what": "the second subscription of the same observable differs from the first (times shifted back by 400)", "got": second, "expected": first}
+    return None
+
+
 def main(argv):
     if argv[0] == "case":
         c = json.loads(argv[1])
-        r = check(c["op"], [tuple(e) for e in c["timeline"]], c["par"])
+        fn = check_resub if c.get("resub") else check
+        r = fn(c["op"], [tuple(e) for e in c["timeline"]], c["par"])
         print(json.dumps({"violation": r}, default=repr))
         sys.exit(1 if r else 0)
     target = argv[2]
@@ -314,15 +355,20 @@ def main(argv):
     order = mine if (target != "all" and mine) else names
     skip = set(opts.get("skip", []))
     n, found = 0, None
+    resub = argv[0] == "resub"
     for op in order:
         if op in skip:
             continue
         for par in OPS[op]:
+            if resub and (par.get("abs") or par.get("sd") is not None or op == "timestamp"):
+                continue  # absolute instants / clock readings / hot-only variants do not shift with the subscription
             for tl in timelines():
                 n += 1
-                r = check(op, tl, par)
+                r = check_resub(op, tl, par) if resub else check(op, tl, par)
                 if r:
                     found = {"case": {"op": op, "par": par, "timeline": [list(e) for e in tl]}, "disagreement": r}
+                    if resub:
+                        found["case"]["resub"] = True
                     break
             if found:
                 break
